@@ -645,7 +645,7 @@ func main() {
 	r.Assumptions = []string{
 		"the database seam is a scripted database/sql driver: SQL is observed as the statement text handed to ISqlxDB.QueryCtx (or rendered with ISelect.String for the planners whose caller renders it)",
 		"PlannerContext fields are those QueryRange/Tail/SearchTraceQL/Values/Series/prof.plannerCtx set; VersionInfo is {v3:0,v5:0}",
-		"byte equality with a fresh plan under the same window is used as the (sufficient) criterion for 'same meaning apart from the time bounds'; a textual difference is classified by explanation (deviant-rule replay for D13, structural detectors otherwise) — /verif/mc/chsim was not available to execute both statements",
+		"byte equality with a fresh plan under the same window is used as the (sufficient) criterion for 'same meaning apart from the time bounds'; a textual difference is classified by explanation (deviant-rule replay for D13, structural detectors otherwise) and both statement lists are executed by verif/mc/chsim on one small universal database as a cross-check",
 	}
 	all, core := allSpecs(), coreSpecs()
 	if r.Replay != "" {
